@@ -34,6 +34,35 @@ Qed.
 Lemma eq_ignore_refl s : eq_ignore_ascii_case s s = true.
 Proof. unfold eq_ignore_ascii_case. apply String.eqb_refl. Qed.
 
+Lemma forallb_map_local {A B} (f : A -> B) p l : forallb p (map f l) = forallb (fun x => p (f x)) l.
+Proof. induction l as [|x l IH]; [reflexivity|]. cbn [map forallb]. now rewrite IH. Qed.
+Lemma forallb_ext_local {A} (p q : A -> bool) l : (forall x, p x = q x) -> forallb p l = forallb q l.
+Proof. intros H. induction l as [|x l IH]; [reflexivity|]. cbn [forallb]. now rewrite H, IH. Qed.
+
+(* a line comes back without text exactly when it was written without text *)
+Definition no_text (i : inline) : bool := match i with Str s => sempty s | _ => false end.
+Lemma merge_nil l : is_nil (merge_strs l) = forallb no_text l.
+Proof.
+  induction l as [|x l IH]; [reflexivity|]. destruct x; try reflexivity.
+  cbn [merge_strs forallb no_text]. rewrite <- IH. destruct (merge_strs l) as [|y r].
+  - destruct (sempty s); reflexivity.
+  - cbn [is_nil]. rewrite andb_false_r. destruct y; destruct (sempty s); reflexivity.
+Qed.
+Lemma no_text_rr o i : no_text (rr_inline o i) = no_text i.
+Proof.
+  destruct i; try reflexivity. cbn [rr_inline].
+  repeat match goal with |- context [match ?x with _ => _ end] => destruct x end; reflexivity.
+Qed.
+Lemma lead_kind_safe ctx dir o l : lead_kind_stable ctx dir o l = is_nil l || negb (is_nil (merge_strs l)).
+Proof.
+  unfold lead_kind_stable, line0, normalize_inlines, to_ginlines, rr_inlines.
+  assert (E : forall A B (f : A -> B) m, is_nil (map f m) = is_nil m) by (intros A B f []; reflexivity).
+  rewrite !E, !merge_nil, forallb_map_local.
+  destruct l as [|x l]; [reflexivity|]. cbn [is_nil orb]. rewrite (forallb_ext_local _ no_text).
+  - destruct (forallb no_text (x :: l)); reflexivity.
+  - intros i. apply no_text_rr.
+Qed.
+
 Section Calm.
   Variable ctx : titles.
   Variable dir : string.
@@ -236,6 +265,13 @@ Section CalmBlocks.
     destruct (all_ws la) eqn:E; cbn [block_md]; [reflexivity|]. now rewrite E.
   Qed.
 
+  Lemma safe_line_kind l : safe_line o l = true -> lead_kind_stable ctx dir o l = true.
+  Proof.
+    unfold safe_line. intros H. apply andb_prop in H as [_ H]. apply andb_prop in H as [H _].
+    apply andb_prop in H as [H _]. apply andb_prop in H as [H _].
+    rewrite lead_kind_safe. destruct (merge_strs l); [discriminate H|]. apply orb_true_r.
+  Qed.
+
   Definition CM (b : gblock) : Prop := safe_block o b = true -> gcalm b = true -> md_settled ctx dir o b = true.
 
   Lemma calm_seq l : Forall CM l -> forallb (safe_block o) l = true -> forallb gcalm l = true ->
@@ -257,9 +293,9 @@ Section CalmBlocks.
     apply andb_prop in Hs as [Hs1 Hs2]. apply andb_prop in Hc as [Hc1 Hc2]. rewrite IH by assumption.
     rewrite andb_true_r. apply andb_prop in Hs1 as [Hl Hs1].
     destruct it as [|h rest]; [reflexivity|]. inversion Hit as [|? ? _ Hr]; subst.
-    cbn [forallb] in Hs1. apply andb_prop in Hs1 as [_ Hs1]. apply andb_prop in Hc1 as [Hch Hcr].
+    cbn [forallb] in Hs1. apply andb_prop in Hs1 as [Hsh Hs1]. apply andb_prop in Hc1 as [Hch Hcr].
     cbn [item_md_settled]. rewrite (calm_line ctx dir o _ Hch), (calm_seq rest Hr Hs1 Hcr), !andb_true_r.
-    destruct h; try discriminate; reflexivity.
+    destruct h; try discriminate; cbn [is_paragraph gline safe_block andb] in *; now apply safe_line_kind.
   Qed.
 
   Lemma calm_block : forall b, CM b.
